@@ -195,6 +195,25 @@ def witnesses(spec, base_cfg, names, wd, timeout=300, workers=None):
     return out
 
 
+def parse_trace_output(output):
+    """Parse what the trace specs print: <<"CLASS", c>>, <<"DIFF", line, name, {fields}>>, <<"DONE", n>>.
+    TLC wraps long values over several lines, so white space is normalised first."""
+    flat = re.sub(r"\s+", " ", output)
+    classes = {}
+    for m in re.finditer(r'<<\s*"CLASS",\s*"([a-z_]+)"\s*>>', flat):
+        classes[m.group(1)] = classes.get(m.group(1), 0) + 1
+    diffs, seen = [], set()
+    for m in re.finditer(r'<<\s*"DIFF",\s*(\d+),\s*"([a-z_]+)",\s*\{([^}]*)\}\s*>>', flat):
+        ln = int(m.group(1))
+        if ln in seen:
+            continue
+        seen.add(ln)
+        fields = sorted(x.strip().strip('"') for x in m.group(3).split(",") if x.strip())
+        diffs.append((ln, m.group(2), fields))
+    done = re.search(r'<<\s*"DONE",\s*(\d+)\s*>>', flat)
+    return classes, diffs, (int(done.group(1)) if done else None)
+
+
 def unquote_tla_string(s):
     """Turn a TLA+ printed string literal (as PrintT shows it) into the Python string."""
     s = s.strip()
